@@ -106,8 +106,43 @@ DIVNODE = z3.Function("isinstance_DivNode", z3.IntSort(), z3.BoolSort())       #
 
 def _post_flag(e):
     """constant <op> x with a division-like operator: the helper is told to CHECK for a zero divisor, unless the node says cdivision"""
-    zdc = _local(e, "zerodivision_check")
+    zdc = _local(e, e.roles["flag"])
     return zdc.b == (e.h0.fld("cdivision", e.node) == 0)
+
+
+FLAG_PARAMS = ("operator", "node", "arg_order", "is_float", "extra_args")
+
+
+def _select_flag(fn):
+    """the statement that computes the zero-division flag, selected structurally: the top-level `if` whose body assigns a local and appends
+    `...BoolNode(..., value=<that local>)` to a list; preceded by the top-level definitions `x = <expr>` of any other local it reads (a refactoring
+    may have named a sub-condition).  role: the flag local"""
+    import ast
+    from dv.pyfe import StaleContract
+    body = list(fn.body)
+    hits = []
+    for idx, s_ in enumerate(body):
+        if not isinstance(s_, ast.If):
+            continue
+        assigned = {t.id for n in ast.walk(s_) if isinstance(n, ast.Assign) for t in n.targets if isinstance(t, ast.Name)}
+        for n in ast.walk(s_):
+            if (isinstance(n, ast.Call) and isinstance(n.func, ast.Attribute) and n.func.attr == "append" and len(n.args) == 1 and isinstance(n.args[0], ast.Call)):
+                for kw in n.args[0].keywords:
+                    if kw.arg == "value" and isinstance(kw.value, ast.Name) and kw.value.id in assigned:
+                        hits.append((idx, s_, kw.value.id))
+    if len(hits) != 1:
+        raise StaleContract("no single top-level `if` computes a flag and appends BoolNode(value=<flag>)")
+    idx, stmt, flag = hits[0]
+    assigned = {t.id for n in ast.walk(stmt) if isinstance(n, ast.Assign) for t in n.targets if isinstance(t, ast.Name)}
+    free = {n.id for n in ast.walk(stmt) if isinstance(n, ast.Name) and isinstance(n.ctx, ast.Load)} - assigned - set(FLAG_PARAMS) - {"ExprNodes"} - set(dir(__import__("builtins")))
+    defs = []
+    for name in sorted(free):
+        cands = [b for b in body[:idx] if isinstance(b, ast.Assign) and len(b.targets) == 1 and isinstance(b.targets[0], ast.Name) and b.targets[0].id == name]
+        if len(cands) != 1:
+            raise StaleContract("the flag statement reads the local %r, which has no single top-level definition before it" % name)
+        defs.append(cands[0])
+    defs.sort(key=lambda b: b.lineno)
+    return defs + [stmt], {"flag": flag}
 
 
 def _flag_units():
@@ -123,8 +158,8 @@ def _flag_units():
                    callees={"ExprNodes.BoolNode": C("ExprNodes.BoolNode", ["pos", "value"], result_kind="ref:obj:Node")},
                    native=_native_flag, search=lambda seed, ob: _native_flag({}, ob),
                    options={"fields": FIELDS, "merge": False, "modules": {"PyrexTypes": "obj:Type", "ExprNodes": "obj:Class"}, "dynamic_classes": ("obj:Node",),
-                            "fragment": {"start": r"^if is_float or operator not in \('Eq', 'Ne'\):", "end": r"^if is_float or operator not in \('Eq', 'Ne'\):"}},
-                   subject={"fragment": "the statement computing `zerodivision_check` and appending it to the helper's extra arguments"})
+                            "fragment": {"select": _select_flag}},
+                   subject={"fragment": "the statement computing the zero-division flag and appending it to the helper's extra arguments (structurally selected)"})
         us.append(u)
     return us
 
